@@ -210,7 +210,7 @@ def score_invariant(scls):
   ctx = FuncCtx.of(f)
   g = ctx.g
   for n in g.nodes:
-    if n.kind == 'test' and norm(n.expr) in ('self.diag.x is None', 'self.diag._x is None'):
+    if n.kind == 'test' and norm(ctx.rd.expand(n, n.expr)[0]) in ('self.diag.x is None', 'self.diag._x is None'):
       tb = [m for m, lab in g.succ[n] if lab == 'true']
       if tb and g.exit not in g.reachable(tb[0], cfgmod.no_exc) and n in g.dominators(cfgmod.no_exc).get(g.exit, ()):
         return True
